@@ -1,6 +1,6 @@
 (** C16 - Allocation policies mean what the documentation says; no spurious refusals.
     Only statements closed by [exact]; the proofs live in HQ.Alloc.GroupsProofs. *)
-From HQ Require Import Base.Prelude Gen.Consts Alloc.Model Alloc.Spec Alloc.Lemmas Alloc.GroupsProofs Alloc.MirrorSystem Alloc.Admission Alloc.Objective Alloc.Examples.
+From HQ Require Import Base.Prelude Gen.Consts Alloc.Model Alloc.Spec Alloc.Lemmas Alloc.GroupsProofs Alloc.MirrorSystem Alloc.Admission Alloc.Objective Alloc.Strict Alloc.Examples.
 Open Scope N_scope.
 
 (** The reference [min_groups] is the true minimum number of groups that can hold (units, fraction):
@@ -64,6 +64,22 @@ Theorem C16_strict_sound : forall per_now per_all units fr m_now m_all,
   exists k, min_groups per_now units fr = Some k /\ k <= len m_all.
 Proof. exact strict_admission_sound. Qed.
 
+(** The same at the level of the admission function: if has_resources_for_request admits a request with ONE
+    strict entry on a grouped resource (first call, no coupling weights) and the solver's answer for the empty
+    worker is optimal (selects min_groups groups - checked per answer by the monitor), then the amount fits NOW
+    into at most the minimum number of groups of the empty worker. *)
+Theorem C16_strict_admitted_sound : forall a e pol amt w yard p s_now s_all,
+  (pol = ForceCompact \/ pol = ForceTight) -> e_req e = Req pol amt ->
+  a_weights a = [] -> a_yard a = [] ->
+  get_at (a_pools a) (e_res e) = Ok p -> is_groups p = true ->
+  get_at (a_free a) (e_res e) = Ok s_now -> get_at (a_all a) (e_res e) = Ok s_all ->
+  has_resources a [e] w = Ok (true, yard) ->
+  (forall m_all, w_yard w = Some [m_all] ->
+                 min_groups (amount_max_per_group s_all) (fst (split amt)) (snd (split amt)) = Some (len m_all)) ->
+  exists k m_all, w_yard w = Some [m_all]
+    /\ min_groups (amount_max_per_group s_now) (fst (split amt)) (snd (split amt)) = Some k /\ k <= len m_all.
+Proof. exact strict_admitted_sound. Qed.
+
 (** statements that are monitored on every run but not proved (see tools/props/C16.json "partial") *)
 Definition C16_claim_follows_policy_full : Prop := forall before e ra,
   scatter_ok before e ra = true /\ compact_even_ok before e ra = true /\ tight_ok before e ra = true
@@ -88,4 +104,5 @@ Print Assumptions C16_admission_iff_feasible.
 Print Assumptions C16_objective_orders_by_group_count.
 Print Assumptions C16_optimal_is_minimal.
 Print Assumptions C16_strict_sound.
+Print Assumptions C16_strict_admitted_sound.
 Print Assumptions C16_strict_fix_example.
